@@ -75,6 +75,10 @@ attempt unregister on `disconnected`. -/
 theorem repaired_D1 : syncDisconnectedSetsConnectEvent = true ∧ Sys.init.w.fixD1 = true := by decide
 theorem repaired_D21 : tocFetcherAbortsOnDisconnect = true ∧ extFetcherAbortsOnDisconnect = true ∧
     Sys.init.c.fixD21 = true := by decide
+/-- an aborted TocFetcher that is still in the dispatcher's snapshot cannot run its finished callback -/
+theorem aborted_fetcher_cannot_finish : abortedTocFetcherCannotFinish = true ∧ Sys.init.c.fixAbort = true := by decide
+/-- D26: the first-packet callback ignores a packet whose link was closed by an earlier callback -/
+theorem repaired_D26 : firstPacketCbChecksLink = true ∧ Sys.init.c.fixFirst = true := by decide
 
 /-! ## M1 theorems -/
 
@@ -107,10 +111,11 @@ theorem sync_open_raises_on_fault_inside_open_link (d : Dev) :
     (step d Sys.init (.syncOpen .failing)).1.w.waitOpen = false := by
   constructor <;> rfl
 
-/-- **connected_only_when_tables_complete**: whenever an operation signals `connected`, all `nLog` log entries, all
+/-- **connected_only_when_tables_complete**: whenever an operation (other than a dispatch with an in-callback action, for
+which see `in_callback_action`) signals `connected`, all `nLog` log entries, all
 `nPar` parameter entries and the extended type of every extended parameter have been received in this attempt. -/
 theorem connected_only_when_tables_complete (d : Dev) (ops : List Op) (op : Op)
-    (hu : usage d Sys.init (ops ++ [op]) = true) :
+    (hu : usage d Sys.init (ops ++ [op]) = true) (hop : op.isAct = false) :
     Out.cb .connected ∈ (step d (run d Sys.init ops).1 op).2 →
       complete d (step d (run d Sys.init ops).1 op).1.c := by
   rw [usage_append] at hu
@@ -119,11 +124,11 @@ theorem connected_only_when_tables_complete (d : Dev) (ops : List Op) (op : Op)
   have hc := core_shape d _ op hs hu.2
   intro hm
   rw [step_eq] at hm ⊢
-  exact hc.2.2.1 (stepW_cb_mem _ _ _ _ hm)
+  exact hc.2.2.1 hop (stepW_cb_mem _ _ _ _ hm)
 
 /-- **fully_only_when_all_values**: whenever an operation signals `fully_connected`, every parameter has a value. -/
 theorem fully_only_when_all_values (d : Dev) (ops : List Op) (op : Op)
-    (hu : usage d Sys.init (ops ++ [op]) = true) :
+    (hu : usage d Sys.init (ops ++ [op]) = true) (hop : op.isAct = false) :
     Out.cb .fully ∈ (step d (run d Sys.init ops).1 op).2 →
       allVals d (step d (run d Sys.init ops).1 op).1.c := by
   rw [usage_append] at hu
@@ -132,7 +137,38 @@ theorem fully_only_when_all_values (d : Dev) (ops : List Op) (op : Op)
   have hc := core_shape d _ op hs hu.2
   intro hm
   rw [step_eq] at hm ⊢
-  exact hc.2.2.2 (stepW_cb_mem _ _ _ _ hm)
+  exact hc.2.2.2 hop (stepW_cb_mem _ _ _ _ hm)
+
+/-- **in_callback_action** (sub-packet granularity): `close_link` or a link error performed from INSIDE an all-packet
+or port callback while packet k is being dispatched — after the dispatcher took its snapshot, before the fetchers'
+callbacks — for every k and every history: `trace_wf` covers these operations (`closeCalled` owes exactly one
+`disconnected`, nothing of the attempt follows it); and any `connected` / `fully_connected` in such an operation was
+signalled by the normal handling of that packet BEFORE the action, with complete tables / all values in the state the
+callbacks saw — an aborted fetcher that still receives the completing packet does not advance the set-up. -/
+theorem in_callback_action (d : Dev) (ops : List Op) (pos : Pos) (a : Act)
+    (hu : usage d Sys.init ops = true) :
+    let s := (run d Sys.init ops).1
+    (Out.cb .connected ∈ (step d s (.deliverAct pos a)).2 →
+      Out.cb .connected ∈ (deliver d s.c).2 ∧ complete d (deliver d s.c).1) ∧
+    (Out.cb .fully ∈ (step d s (.deliverAct pos a)).2 →
+      Out.cb .fully ∈ (deliver d s.c).2 ∧ allVals d (deliver d s.c).1) ∧
+    -- if a packet was dispatched, the attempt is over afterwards
+    (phase (deliverAct d pos a s.c).1 = .idle ∨ (deliverAct d pos a s.c).2 = []) := by
+  intro s
+  have hs := (run_sound d ops Sys.init (sinv_init d) hu).1
+  have hdel := deliver_core d s.c hs.core
+  have hfa := hs.core.fixedAbort
+  refine ⟨fun hm => ?_, fun hm => ?_, ?_⟩
+  · rw [step_eq] at hm
+    have := deliverAct_cb d pos a s.c hfa hs.core.fixedFirst .connected (Or.inl rfl) (stepW_cb_mem _ _ _ _ hm)
+    exact ⟨this, hdel.2.2.1 this⟩
+  · rw [step_eq] at hm
+    have := deliverAct_cb d pos a s.c hfa hs.core.fixedFirst .fully (Or.inr rfl) (stepW_cb_mem _ _ _ _ hm)
+    exact ⟨this, hdel.2.2.2 this⟩
+  · have hm := (deliverAct_core d pos a s.c hs.core).2
+    have key : ∀ (a : Act) (ph : Ph), ∀ sh ∈ shapesAct a ph, sh.2 = .idle ∨ sh.1 = [] := by
+      intro a ph; cases a <;> cases ph <;> decide
+    exact key a _ _ hm
 
 /-- **sync_open_returns / sync_close_returns**: after every operation sequence, a `SyncCrazyflie.open_link` that is
 still blocked belongs to an attempt that is still in progress (link open, `connected` not yet signalled): as soon as
@@ -170,13 +206,15 @@ theorem link_error_outputs (s : S) :
 
 /-- **reconnectable** (structural half): after ANY history that ends without a link, opening again puts the
 `Crazyflie` object into exactly the state a fresh object is in after `open_link` — except for the inert last
-`_lock_pattern` of the parameter thread (only compared while its lock is held) — and the wrapper into its initial
-state.  All theorems above hold from there, as from any reachable state. -/
+`_lock_pattern` of the parameter thread (only compared while its lock is held) and the position of the re-registered
+first-packet callback behind the application's callbacks (`cbLate`; with D26 repaired it only decides whether an
+in-callback close of the first packet is preceded by `link_established`) — and the wrapper into its initial state.  All theorems above hold from there, as from any reachable state. -/
 theorem reconnectable (d : Dev) (ops : List Op) (hu : usage d Sys.init ops = true) :
     let s := (run d Sys.init ops).1
     s.c.link = false → s.c.armed = false →
       s.w = { fixD1 := true } ∧
-      (openLink .ok s.c).1 = { (openLink .ok S.init).1 with upd := { q := [], locked := false, pat := s.c.upd.pat } } ∧
+      (openLink .ok s.c).1 = { (openLink .ok S.init).1 with upd := { q := [], locked := false, pat := s.c.upd.pat },
+                                                            cbLate := s.c.cbLate || !s.c.initCb } ∧
       (openLink .ok s.c).2 = (openLink .ok S.init).2 := by
   intro s hl ha
   have hs := (run_sound d ops Sys.init (sinv_init d) hu).1
@@ -217,8 +255,8 @@ example : pot ⟨true, 2, 1, [true, false]⟩ (openLink .ok S.init).1 = 15 := by
 /-! ## The unrepaired code (counterexamples; the same scripts are replayed on the real code by `search()`) -/
 
 /-- the object as the UNREPAIRED code builds it -/
-def unrepairedD1 : Sys := { c := { fixD21 := true }, w := { fixD1 := false } }
-def unrepairedD21 : Sys := { c := { fixD21 := false }, w := { fixD1 := true } }
+def unrepairedD1 : Sys := { c := { fixD21 := true, fixAbort := true, fixFirst := true }, w := { fixD1 := false } }
+def unrepairedD21 : Sys := { c := { fixD21 := false, fixAbort := true, fixFirst := true }, w := { fixD1 := true } }
 
 /-- D1: `SyncCrazyflie.open_link`, one packet, link error: the attempt is over, the call is blocked for ever. -/
 theorem sync_open_hangs_counterexample :
@@ -236,6 +274,26 @@ def staleFetcherOps : List Op :=
 theorem stale_fetcher_counterexample :
     usage ⟨true, 0, 0, [true]⟩ unrepairedD21 staleFetcherOps = true ∧
     wfRun {} (run ⟨true, 0, 0, [true]⟩ unrepairedD21 staleFetcherOps).2 = none := by decide
+
+/-- an aborted TocFetcher that could still finish (the guard removed): `close_link` from a port callback during the
+dispatch of the packet that completes the parameter TOC: `connected` is delivered after `disconnected`. -/
+def abortedFetcherFinishes : Sys := { c := { fixD21 := true, fixAbort := false, fixFirst := true }, w := { fixD1 := true } }
+
+theorem aborted_fetcher_counterexample :
+    usage ⟨true, 0, 0, [false]⟩ abortedFetcherFinishes
+      [.open .ok, .deliver, .deliver, .deliver, .deliver, .deliver, .deliver, .deliverAct .port .close] = true ∧
+    wfRun {} (run ⟨true, 0, 0, [false]⟩ abortedFetcherFinishes
+      [.open .ok, .deliver, .deliver, .deliver, .deliver, .deliver, .deliver, .deliverAct .port .close]).2 = none := by decide
+
+/-- D26: second connection on the same object, `close_link` from the application's all-packet callback while the first
+packet is dispatched: the re-registered first-packet callback runs afterwards and signals `link_established` after
+`disconnected`. -/
+def unrepairedD26 : Sys := { c := { fixD21 := true, fixAbort := true, fixFirst := false }, w := { fixD1 := true } }
+
+theorem late_first_packet_cb_counterexample :
+    usage ⟨true, 0, 0, []⟩ unrepairedD26 [.open .ok, .deliver, .close, .open .ok, .deliverAct .allPkt .close] = true ∧
+    wfRun {} (run ⟨true, 0, 0, []⟩ unrepairedD26 [.open .ok, .deliver, .close, .open .ok, .deliverAct .allPkt .close]).2 = none := by
+  decide
 
 /-- the same script on the repaired model is fine (and `trace_wf` covers every script) -/
 example : (wfRun {} (run ⟨true, 0, 0, [true]⟩ Sys.init staleFetcherOps).2).isSome = true := by decide
